@@ -182,14 +182,9 @@ class Oscar(BaseStorer):
         self.event_end_lines_: List[str] = self.loader_.event_end_lines()
         self.impact_parameters_: List[float] = self.loader_.impact_parameter()
         # position in event_end_lines_ of the footer of every event held
-        self.event_origin_: List[int] = []
-        if (
-            self.num_output_per_event_ is not None
-            and self.num_output_per_event_.ndim == 2
-        ):
-            self.event_origin_ = [
-                int(label) for label in self.num_output_per_event_[:, 0]
-            ]
+        self.event_origin_: List[int] = list(
+            self.loader_.loaded_event_indices_
+        )
         del self.loader_
 
     def create_loader(self, OSCAR_FILE: str) -> None:  # type: ignore[override]
